@@ -566,6 +566,29 @@ example :
     (by decide +kernel) (by decide +kernel) 0 (by decide) (by decide +kernel)).2.2.1
   rw [h]; decide +kernel
 
+-- `C07_hist_once`: parity 2 and data 0 recover data 1; group 3 interleaves; then data 1 arrives late
+-- (one packet of the group < d = 2): its call returns nothing
+example :
+    ((FecDec.feed rsNew (fresh rsNew 2 1)
+        ([] ++ [a0.packet rsNew 2] ++ [a0.packet rsNew 0] ++ [a3.packet rsNew 0])).1.decode rsNew
+      (a0.packet rsNew 1)).recovered = [] := by
+  have hI := ((C07_hist_invariant (C := rsNew) fam).1 2 1 (fresh rsNew 2 1) rfl).1
+  exact C07_hist_once_rsNew fam a0_wf fam0 (fresh rsNew 2 1) hI rfl rfl rfl [] [a0.packet rsNew 2]
+    (fun q hq => by cases hq)
+    (by
+      intro q hq
+      simp only [List.mem_cons, List.mem_nil_iff, or_false] at hq
+      subst hq; exact gen0 2 (by decide))
+    (fun q hq => by cases hq) (by decide +kernel) (by decide +kernel) 0 (by decide)
+    (by decide +kernel) [a3.packet rsNew 0, a0.packet rsNew 1]
+    (by
+      intro q hq
+      simp only [List.mem_cons, List.mem_nil_iff, or_false] at hq
+      rcases hq with rfl | rfl
+      · exact gen3 0 (by decide)
+      · exact gen0 1 (by decide))
+    (by decide +kernel) [a3.packet rsNew 0] [] 1 rfl (by decide)
+
 -- `C07_hist_window`: groups 0 and 3 (a window of 4) interleaved, with a duplicate
 example :
     ((FecDec.feed rsNew (fresh rsNew 2 1)
